@@ -119,6 +119,10 @@ class LazyEvaluatedKernelTensor(LinearOperator):
             x1, x2, diag=True, last_dim_is_batch=self.last_dim_is_batch, **self.params
         )
 
+        # Did this Kernel eat the diag option? (Same fallback as in Kernel.__call__)
+        if res.shape == self.shape:
+            res = res.diagonal(dim1=-1, dim2=-2)
+
         # Now we'll make sure that the shape we're getting from diag makes sense
         if settings.debug.on():
             expected_shape = self.shape[:-1]
